@@ -399,6 +399,14 @@ static size_t key_put(uint8_t *k, uint64_t v, int how) {
     if (how == 0) {
         return varintTaggedPut64(k, v);
     }
+    if (how == 3) { /* the 32-bit writer and the fixed-width writer at the minimal width */
+        return v <= UINT32_MAX ? (size_t)varintTaggedPutVarint32(k, (uint32_t)v) : varintTaggedPut64(k, v);
+    }
+    if (how == 4) {
+        varintWidth w = varintTaggedLen(v);
+        varintTaggedPut64FixedWidth(k, v, w);
+        return (size_t)w;
+    }
     /* how >= 10: counter-style use, the value is reached by a small step:
      * how = 10 + 2*j (+1): start = v + STEP[j] stepped down with AddGrow
      * (even) / start = v - STEP[j] stepped up with AddGrow (odd) */
@@ -464,6 +472,8 @@ static void mode_cmp(size_t shard, size_t nshards, size_t nrandom) {
         cmp_emit_how(&vals[i], &vals[i], 1, 1);
         cmp_emit_how(&vals[i], &vals[i + 1], 1, 2);
         cmp_emit_how(&vals[i + 1], &vals[i], 1, 2);
+        cmp_emit_how(&vals[i], &vals[i], 1, 3);
+        cmp_emit_how(&vals[i], &vals[i], 1, 4);
         /* ... and by counter-style small steps in both directions */
         for (int h = 10; h < 22; h++) {
             cmp_emit_how(&vals[i], &vals[i], 1, h);
